@@ -50,12 +50,23 @@ class MultiFunction:
 
     def __init__(self):
         """Initialise."""
+        self._build_handlers()
+
+        # Create cache for memoized_handler
+        self._memoized_handler_cache = {}
+
+    def _build_handlers(self):
+        """Build the typecode based handler tables.
+
+        This is repeated whenever Expr types have been registered since
+        the tables were built.
+        """
         # Analyse class properties and cache handler data the
         # first time this is run for a particular class
         # (cached for each algorithm for performance)
         algorithm_class = type(self)
         cache_data = MultiFunction._handlers_cache.get(algorithm_class)
-        if not cache_data:
+        if not cache_data or len(cache_data[0]) != len(Expr._ufl_all_classes_):
             handler_names = [None] * len(Expr._ufl_all_classes_)
 
             # Iterate over the inheritance chain for each Expr
@@ -87,11 +98,11 @@ class MultiFunction:
         self._handlers = [getattr(self, name) for name in handler_names]
         self._is_cutoff_type = is_cutoff_type
 
-        # Create cache for memoized_handler
-        self._memoized_handler_cache = {}
-
     def __call__(self, o, *args):
         """Delegate to handler function based on typecode of first argument."""
+        if o._ufl_typecode_ >= len(self._handlers):
+            # The type of o was registered after this object was created
+            self._build_handlers()
         return self._handlers[o._ufl_typecode_](o, *args)
 
     def undefined(self, o, *args):
